@@ -12,6 +12,8 @@ Decided:
   NAMES     language codes, page file-name templates, header path template with lower-casing, root list path
 Not decided: row lookup over all pages, string-heap contents, numeric cell values (execution).
 """
+import re
+
 from .. import fmt
 from ..sym import Explorer, N, is_const, show, walk
 from ..table import Table, Undecided, enum_variants
@@ -83,7 +85,7 @@ def run(ctx):
                     break
             if sel is not None:
                 by_variant.setdefault(sel, []).append(p)
-        closures = {c.name: c for c in prog.closures_of("exd::EXD::read_column")}
+        pb_reads, pb_tests = [], []
         n_arms = 0
         for name, dv in variants:
             ps = [p for p in by_variant.get(dv, []) if p.end == "return"]
@@ -97,6 +99,17 @@ def run(ctx):
                 r = p.env.local(0)
                 if isinstance(r, tuple) and r[0] == "agg" and r[2].endswith("Option::Some"):
                     leaves.append((r[3][0], p))
+                elif isinstance(r, tuple) and r[0] == "call" and re.sub(r"::<[^<>]*>$", "", r[1]).endswith("Option::<T>::map") and len(r[2]) == 2 and isinstance(r[2][1], tuple):
+                    # read(..).map(ColumnData::X) / .map(|v| ColumnData::X(f(v)))  ==  Some(ColumnData::X(..)) whenever the read succeeds
+                    mp = r[2][1]
+                    if mp[0] == "kfn" and mp[1].startswith("exd::ColumnData::"):
+                        leaves.append((("agg", "adt", mp[1], (r[2][0],), None), p))
+                    elif mp[0] == "agg" and mp[1] == "closure" and prog.body(mp[2]):
+                        crets = [q for q in Explorer(prog.body(mp[2])).explore() if q.end == "return"]
+                        if len(crets) == 1:
+                            cr = crets[0].env.local(0)
+                            if isinstance(cr, tuple) and cr[0] == "agg" and cr[1] == "adt" and cr[2].startswith("exd::ColumnData::"):
+                                leaves.append((("agg", "adt", cr[2], (r[2][0],), None), p))
             if not leaves:
                 ctx.ob("CELL", f"arm|{name}", False, f"ColumnDataType::{name}: no path returns Some(..)", rb.file, rb.line)
                 continue
@@ -104,17 +117,27 @@ def run(ctx):
             made = leaf[2].split("::")[-1] if isinstance(leaf, tuple) and leaf[0] == "agg" else None
             if name.startswith("PackedBool"):
                 bitn = int(name[len("PackedBool"):])
-                # the payload is a call of the packed-bool closure with a constant shift
-                shift = None
-                clos = None
-                for t in walk(leaf):
-                    if isinstance(t, tuple) and t[0] == "call" and ("call_mut" in t[1] or "call_once" in t[1] or "{closure" in t[1]):
-                        for a in walk(t[2]):
-                            if is_const(a) and isinstance(a[1], int):
-                                shift = a[1]
-                        clos = t[1]
+                # the payload, read on the inlined body (the helper may be a closure or a private fn): a one-byte read
+                # tested against the single bit N:  (byte & m) == m   or   (byte & m) != 0   with m = 1 << N
+                payload = N(leaf[3][0]) if isinstance(leaf, tuple) and leaf[0] == "agg" and leaf[3] else None
+                bit = None
+                test_ok = False
+                reads_pb = []
+                if isinstance(payload, tuple) and payload[0] == "bin" and payload[1] in ("Eq", "Ne"):
+                    for x, y in ((payload[2], payload[3]), (payload[3], payload[2])):
+                        if isinstance(x, tuple) and x[0] == "bin" and x[1] == "BitAnd":
+                            ms = [m_ for m_ in (x[2], x[3]) if is_const(m_) and isinstance(m_[1], int)]
+                            vals = [m_ for m_ in (x[2], x[3]) if not is_const(m_)]
+                            if len(ms) == 1 and len(vals) == 1 and ms[0][1] > 0 and ms[0][1] & (ms[0][1] - 1) == 0:
+                                m_ = ms[0][1]
+                                if (payload[1] == "Eq" and is_const(y) and y[1] == m_) or (payload[1] == "Ne" and is_const(y) and y[1] == 0):
+                                    bit = m_.bit_length() - 1
+                                    test_ok = True
+                                    reads_pb = raw_reads(vals[0])
+                pb_reads.append((name, reads_pb))
+                pb_tests.append((name, test_ok))
                 ctx.ob("CELL", f"variant|{name}", made == "Bool", f"ColumnDataType::{name} produces ColumnData::{made}; must be Bool", rb.file, rb.line, trivial=True)
-                ctx.ob("CELL", f"bit|{name}", shift == bitn, f"ColumnDataType::{name} tests bit {shift}; must be bit {bitn}", rb.file, rb.line, sample=(bitn == 3))
+                ctx.ob("CELL", f"bit|{name}", bit == bitn, f"ColumnDataType::{name} tests bit {bit}; must be bit {bitn}", rb.file, rb.line, sample=(bitn == 3))
                 continue
             want_t, want_v = REF_CELL[name]
             reads = raw_reads(leaf)
@@ -132,27 +155,11 @@ def run(ctx):
             ctx.ob("CELL", f"width|{name}", ok, f"ColumnDataType::{name} reads {reads or '?'} from the cell; the format stores {'one byte' if name == 'Bool' else want_t}", rb.file, rb.line, sample=(name in ("Bool", "UInt16")))
             ctx.ob("CELL", f"variant|{name}", made == want_v, f"ColumnDataType::{name} produces ColumnData::{made}; must be {want_v}", rb.file, rb.line, trivial=True)
         ctx.floor("CELL", "column types with a decoding arm", n_arms, 19)
-        # packed-bool closure: one byte, (data & (1 << shift)) == (1 << shift)
-        pcs = [c for c in closures.values() if any("read_data_raw" in (t.get("resn") or "") for _b, t in c.calls())]
-        if len(pcs) != 1:
-            ctx.fail_closed("CELL", f"packed-bool closure not identified ({len(pcs)} candidates)")
-        else:
-            c = pcs[0]
-            reads = [(t.get("resn") or "").split("::<")[-1].rstrip(">") for _b, t in c.calls() if "read_data_raw" in (t.get("resn") or "")]
-            ctx.ob("CELL", "packed-bool|width", len(reads) == 1 and reads[0] in ONE_BYTE, f"packed bools are read as {reads}; the format stores one byte", c.file, c.line, sample=True)
-            rets = [p for p in Explorer(c).explore() if p.end == "return"]
-            ok = False
-            det = ""
-            for p in rets:
-                r = N(p.env.local(0))
-                det = show(r)
-                if isinstance(r, tuple) and r[0] == "bin" and r[1] == "Eq":
-                    sides = (r[2], r[3])
-                    shl = [x for x in sides if isinstance(x, tuple) and x[0] == "bin" and x[1] == "Shl" and is_const(x[2]) and x[2][1] == 1 and x[3] == ("v", 2)]
-                    andv = [x for x in sides if isinstance(x, tuple) and x[0] == "bin" and x[1] == "BitAnd"]
-                    if shl and andv and shl[0] in (andv[0][2], andv[0][3]):
-                        ok = True
-            ctx.ob("CELL", "packed-bool|test", ok, f"packed-bool closure returns {det}; must be (byte & (1 << shift)) == (1 << shift)", c.file, c.line)
+        # packed bools: one byte per cell, single-bit test (decided per arm above, summarised here)
+        bad_w = [(n_, r_) for n_, r_ in pb_reads if not (len(r_) == 1 and r_[0] in ONE_BYTE)]
+        ctx.ob("CELL", "packed-bool|width", len(pb_reads) == 8 and not bad_w, f"packed bools are read as {sorted({tuple(r_) for _n, r_ in pb_reads})}; the format stores one byte ({bad_w or 'all 8 arms'})", rb.file, rb.line, sample=True)
+        bad_t = [n_ for n_, ok_ in pb_tests if not ok_]
+        ctx.ob("CELL", "packed-bool|test", len(pb_tests) == 8 and not bad_t, f"packed-bool arms test (byte & (1 << N)) against the same single bit ({bad_t or 'all 8 arms'})", rb.file, rb.line)
         # big-endian cell reads
         db = prog.body("exd::EXD::read_data_raw")
         if not db:
@@ -256,12 +263,34 @@ def run(ctx):
                 leaf = leaf[1]
             got = leaf[1] if isinstance(leaf, tuple) and leaf[0] == "ks" else None
             ctx.ob("NAMES", f"language|{name}", got == REF_LANG.get(name), f"get_language_code({name}) = {got!r}; file-name code is {REF_LANG.get(name)!r}", lb.file, lb.line)
-    tpls = [t.shape() for t in fmt.templates_of(ctx.wire, "exd::EXD::calculate_filename")]
-    args = [[(p[3] or "").replace(" ", "") for p in t.pieces if p[0] == "arg"] for t in fmt.templates_of(ctx.wire, "exd::EXD::calculate_filename")]
-    want = [[("arg", ""), ("lit", "_"), ("arg", ""), ("lit", ".exd")], [("arg", ""), ("lit", "_"), ("arg", ""), ("lit", "_"), ("arg", ""), ("lit", ".exd")]]
-    ctx.ob("NAMES", "page-templates", sorted(tpls, key=len) == want, f"page file names {tpls}; must be {{name}}_{{start}}.exd and {{name}}_{{start}}_{{lang}}.exd", "src/exd.rs", None)
-    ok_args = sorted(args, key=len) == [["name", "page.start_id"], ["name", "page.start_id", "get_language_code(&lang)"]]
-    ctx.ob("NAMES", "page-template-args", ok_args, f"page template arguments {args}", "src/exd.rs", None)
+    # file-name templates, read off the MIR (pv.strx): spelling of the format! arguments does not matter
+    from ..strx import StrX, show as sshow
+    from ..prov import derive as _derive, index_of as _index_of
+
+    cfb = prog.body("exd::EXD::calculate_filename")
+    if not cfb:
+        ctx.fail_closed("NAMES", "exd::EXD::calculate_filename not found")
+    else:
+        sx = StrX(cfb)
+        cix = _index_of(cfb)
+        got = []
+        for _bi, pcs in sx.format_sites():
+            row = []
+            for p_ in pcs:
+                if p_[0] == "lit":
+                    row.append(("lit", p_[1]))
+                elif p_[0] == "arg":
+                    d_ = _derive(cix, p_[3]) if p_[3] is not None else None
+                    calls_ = {c_.split("::")[-1] for c_ in d_.calls} if d_ else set()
+                    role = "lang" if "get_language_code" in calls_ else "start" if d_ and "start_id" in d_.names else "name" if d_ and d_.params == {1} and not d_.names else "?"
+                    row.append((role, p_[1], p_[2]))
+                else:
+                    row.append((p_[0],))
+            got.append(row)
+        PL = (0, 10, False)
+        want = [[("name", "display", PL), ("lit", "_"), ("start", "display", PL), ("lit", ".exd")], [("name", "display", PL), ("lit", "_"), ("start", "display", PL), ("lit", "_"), ("lang", "display", PL), ("lit", ".exd")]]
+        ctx.ob("NAMES", "page-templates", sorted(got, key=len) == want, f"page file names {[sshow(pcs) for _b, pcs in sx.format_sites()]}; must be {{name}}_{{start}}.exd and {{name}}_{{start}}_{{lang}}.exd", cfb.file, cfb.line)
+        ctx.ob("NAMES", "page-template-args", sorted(got, key=len) == want, f"page template arguments {[[x[0] for x in r if x[0] != 'lit'] for r in got]}; must be (name, page.start_id) and (name, page.start_id, language code)", cfb.file, cfb.line, trivial=True)
     # Language::None selects the short template
     cf = prog.body("exd::EXD::calculate_filename")
     if cf and langs:
@@ -275,21 +304,45 @@ def run(ctx):
             if sel and sel[0] == ("eq", none_dv):
                 short_on_none = not uses_lang
         ctx.ob("NAMES", "none-language-short-name", short_on_none is True, "Language::None selects the template without a language code", cf.file, cf.line)
-    ht = fmt.templates_of(ctx.wire, "gamedata::GameData::read_excel_sheet_header")
     hb = prog.body("gamedata::GameData::read_excel_sheet_header")
-    if len(ht) != 1 or not hb:
-        ctx.fail_closed("NAMES", "header path template not found")
+    if not hb:
+        ctx.fail_closed("NAMES", "read_excel_sheet_header not found")
     else:
-        sh = ht[0].shape()
-        lowered = any((t.get("res") or "").endswith("::to_lowercase") for _b, t in hb.calls())
-        ctx.ob("NAMES", "header-path", sh == [("lit", "exd/"), ("arg", ""), ("lit", ".exh")] and lowered, f"sheet header path template {ht[0].template!r}, name lower-cased: {lowered}", hb.file, hb.line)
-        lits = set()
-        for p in Explorer(hb).explore():
-            for (_b, callee, a, _r) in p.events:
-                if callee.endswith("GameData::extract"):
-                    for t in walk(a):
-                        if isinstance(t, tuple) and t[0] == "ks":
-                            lits.add(t[1])
-        ctx.ob("NAMES", "root-list-path", "exd/root.exl" in lits, f"root list is read from {sorted(lits)}", hb.file, hb.line)
-    st = fmt.templates_of(ctx.wire, "gamedata::GameData::read_excel_sheet")
-    ctx.ob("NAMES", "page-path", len(st) == 1 and st[0].shape() == [("lit", "exd/"), ("arg", "")] and "calculate_filename" in (st[0].pieces[1][3] or ""), f"page path template {[t.template for t in st]}", "src/gamedata.rs", None)
+        hsx = StrX(hb)
+        hix = _index_of(hb)
+        paths = []
+        for bi_, t_ in hb.calls():
+            if (t_.get("res") or "").endswith("GameData::extract") and len(t_["args"]) >= 2:
+                paths.append(hsx.string(t_["args"][1]))
+        shapes = []
+        for pcs in paths:
+            flat = []
+            for p_ in pcs:
+                if p_[0] == "map":
+                    inner = p_[2]
+                    d_ = _derive(hix, inner[0][1]) if len(inner) == 1 and inner[0][0] == "opaque" and inner[0][1] is not None else None
+                    flat.append((p_[1], "name" if d_ is not None and 2 in d_.params else "?"))
+                elif p_[0] == "lit":
+                    flat.append(("lit", p_[1]))
+                else:
+                    flat.append((p_[0],))
+            shapes.append(flat)
+        ctx.ob("NAMES", "header-path", [("lit", "exd/"), ("to_lowercase", "name"), ("lit", ".exh")] in shapes, f"paths extracted by read_excel_sheet_header: {[sshow(x) for x in paths]}; must include exd/<lower-cased name>.exh", hb.file, hb.line)
+        ctx.ob("NAMES", "root-list-path", [("lit", "exd/root.exl")] in shapes, f"root list is read from {[sshow(x) for x in paths if all(y[0] == 'lit' for y in x)]}", hb.file, hb.line)
+    sb_ = prog.body("gamedata::GameData::read_excel_sheet")
+    if not sb_:
+        ctx.fail_closed("NAMES", "read_excel_sheet not found")
+    else:
+        ssx = StrX(sb_)
+        six = _index_of(sb_)
+        okp = False
+        seen = []
+        for bi_, t_ in sb_.calls():
+            if (t_.get("res") or "").endswith("GameData::extract") and len(t_["args"]) >= 2:
+                pcs = ssx.string(t_["args"][1])
+                seen.append(sshow(pcs))
+                if len(pcs) == 2 and pcs[0] == ("lit", "exd/") and pcs[1][0] in ("arg", "opaque"):
+                    op_ = pcs[1][3] if pcs[1][0] == "arg" else pcs[1][1]
+                    d_ = _derive(six, op_) if op_ is not None else None
+                    okp = d_ is not None and "calculate_filename" in {c_.split("::")[-1] for c_ in d_.calls} and (pcs[1][0] == "opaque" or pcs[1][2] == (0, 10, False))
+        ctx.ob("NAMES", "page-path", okp, f"page paths extracted by read_excel_sheet: {seen}; must be exd/ + EXD::calculate_filename(..)", sb_.file, sb_.line)
